@@ -39,7 +39,33 @@ class PropBase:
     # single-endpoint properties whose judge was checked to be indifferent to how the reading is batched.
     rx_only_passes = 0.0
 
+    # probability that a random scenario is turned into a CORRESPONDENCE-ONLY scenario in which some full passes become receive-only passes
+    # (the transmitting half is put off until the next full pass, possibly much later).  No property quantifies over such schedules, so no
+    # judge is applied to them (`no_judge`); the model, whose `process` takes the same two flags, must still agree with the code there.
+    rx_only_gaps = 0.0
+
+    def mix_rx_only_gaps(self, rng, sc):
+        p = self.rx_only_gaps
+        if not p or rng.random() >= p or sc.get('no_model'):
+            return None
+        q = rng.choice([0.15, 0.4, 0.8])
+        ops, n = [], 0
+        for k, op in enumerate(sc['ops']):
+            if op.get('op') == 'process' and 'rx' not in op and 'tx' not in op and rng.random() < q:
+                ops.append(dict(op, tx=False))
+                n += 1
+            else:
+                ops.append(op)
+        if not n:
+            return None
+        sc = dict(sc, ops=ops, no_judge=True)
+        sc['tags'] = list(sc.get('tags', [])) + ['rx_only_gaps']
+        return sc
+
     def mix_partial_passes(self, rng, sc):
+        g = self.mix_rx_only_gaps(rng, sc)
+        if g is not None:
+            return g
         if not self.partial_passes or rng.random() >= self.partial_passes:
             return sc
         with_rx = rng.random() < self.rx_only_passes
@@ -120,6 +146,8 @@ class PropBase:
     def tally(self, dist, sc, lines_in, impl_out):
         if 'enumerated' in sc.get('tags', ()):
             dist['enumerated_scenarios'] = dist.get('enumerated_scenarios', 0) + 1
+        if 'rx_only_gaps' in sc.get('tags', ()):
+            dist['correspondence_only_scenarios_with_receive_only_passes'] = dist.get('correspondence_only_scenarios_with_receive_only_passes', 0) + 1
         if 'partial_passes' in sc.get('tags', ()):
             dist['scenarios_with_partial_passes'] = dist.get('scenarios_with_partial_passes', 0) + 1
         for l in lines_in:
